@@ -382,6 +382,29 @@ def check_d1(ctx, rep):
                 else:
                     consumers.append((f, u))
         what = "engine %s::%s" % (short(q), name)
+        # construction from the seed in the constructor's initialiser list (`rgen_(params_.seed)`) is the same seeding
+        ctor_seed = []
+        for f in prog.funcs.values():
+            if f.kind == "CXXConstructorDecl" and f.cls == q:
+                for ci_ in f.ctor_inits:
+                    an = ci_.get("anyInit") or {}
+                    if an.get("name") == name and children(ci_):
+                        ic = canon(children(ci_)[-1])
+                        if any(isinstance(t, tuple) and t and t[0] == "field" and t[1] == CQ + "ColoquinteParameters::seed" for t in [ic] + list(subterms(ic))):
+                            ctor_seed.append((f, ci_))
+        if not seeds and len(ctor_seed) == 1:
+            f, ci_ = ctor_seed[0]
+            rep.holds("D1", ci_, f, what, "constructed from params.seed in the initialiser list (before any use); %d consumer site(s)" % len(consumers))
+            for cf, cu in consumers:
+                if cf.outer.key in async_reach or in_async_lambda(cu.node):
+                    rep.violation("D1", cu.node, cf, what + " consumed inside an asynchronous callee",
+                                  "the order in which threads draw from one engine depends on scheduling",
+                                  key="%s|consumed in async callee %s" % (fq, cf.short))
+            continue
+        if ctor_seed and seeds:
+            rep.violation("D1", seeds[0][1].node, seeds[0][0], what, "constructed from the seed and seeded again by seed(): the stream is restarted",
+                          key="%s|seed count" % fq)
+            continue
         if len(seeds) != 1:
             rep.violation("D1", fd, None, what, "%d seed() call(s); exactly one is required (an unseeded or re-seeded engine changes the stream)" % len(seeds),
                           key="%s|seed count" % fq)
@@ -544,6 +567,8 @@ def check_unordered_var(ctx, eff, f, d, rep, rid):
             break
         if k in ("DeclStmt", "CompoundStmt"):
             continue
+        if k == "LambdaExpr":
+            continue            # the capture itself; every use inside the lambda's body is one of the references judged here
         bad = (p, "used in %s" % k)
         break
     if bad:
@@ -696,6 +721,7 @@ def check_a1(ctx, prog, eff, rep, rid):
             if ind:
                 problems.append("object class holds %s: const-ness does not protect the pointee" % ind)
         seen_callee = False
+        cref_locals = []
         for a in ci["args"]:
             x = strip(a, casts=True)
             t = qt(x)
@@ -711,6 +737,17 @@ def check_a1(ctx, prog, eff, rep, rid):
                     obj_fields.append(oc[1])
                 if m.get("kind") != "CXXMethodDecl" or len(obj_fields) > 1:
                     problems.append("pointer argument %s handed to the thread" % pretty(c))
+                continue
+            if x.get("kind") in ("CallExpr",) and callee_info(x)["name"] == "cref" and callee_info(x)["args"]:
+                # a const reference handed to the thread: as good as a copy provided the parent does not write the object before the
+                # join (members: checked below with the object's own members; locals: no write in the launch..join region)
+                rc = canon(callee_info(x)["args"][0])
+                if rc[0] == "field":
+                    obj_fields.append(rc[1])
+                elif rc[0] == "var":
+                    cref_locals.append(rc)
+                else:
+                    problems.append("argument %s wraps a reference to something that is neither a member nor a local" % pretty(c))
                 continue
             if t.rstrip().endswith("*") or "reference_wrapper" in t:
                 problems.append("argument %s is a pointer / std::ref: not decay-copied" % pretty(c))
@@ -748,6 +785,12 @@ def check_a1(ctx, prog, eff, rep, rid):
                         n = g.node_for(u.node)
                         if n is not None and n.idx in region and n is not ln:
                             problems.append("%s is written (%s) while the thread may still read it" % (short(fq), u.why))
+                from .common import var_write_nodes
+                for lv_ in cref_locals:
+                    for wn_ in var_write_nodes(ctx, f.outer, [lv_[1]]):
+                        n = g.node_for(wn_)
+                        if n is not None and n.idx in region and n is not ln:
+                            problems.append("local %s, passed by std::cref, is written while the thread may still read it" % lv_[2])
         if problems:
             rep.violation(rid, call, f, what, "; ".join(problems[:3]), key="%s|async discipline: %s" % (f.short, problems[0][:60]))
         else:
